@@ -837,6 +837,280 @@ add("mesh-get_nodes_vars-return", "C19",
         // a copy, the mesh keeps its own
         return self.vars[ node ].clone();""")])
 
+# ------------------------------------------------------------------------------------------------ held-out set
+# written AFTER the canonicalisations of rust2coq.py (round four) had been implemented against the entries above, and not used to
+# tune them: the same classes of rewrite on other functions, plus three classes that were not addressed on purpose
+add("held-mat-fill_row-helper-fn", "C03",
+    "Matrix::fill_row: the loop body extracted into a private helper `fn put(&mut self, i, j, e)` of the same impl",
+    "the helper performs the same single indexed write",
+    [(M_OPS, """        if self.rows <= row { panic!( "Matrix range error in fill_row" ); }
+        for j in 0..self.cols {
+            self[(row, j)] = elem.clone();
+        }
+    }
+""", """        if self.rows <= row { panic!( "Matrix range error in fill_row" ); }
+        for j in 0..self.cols {
+            self.put( row, j, elem.clone() );
+        }
+    }
+
+    // one entry
+    fn put(&mut self, i: usize, j: usize, e: T ) {
+        self[(i, j)] = e;
+    }
+""")])
+add("held-tri-solve-rev-to-while", "C05",
+    "Tridiagonal::solve: back substitution `for j in (0..self.n - 1).rev()` -> `let mut j = self.n - 1; while j > 0 { j -= 1; .. }`",
+    "same index sequence n-2, .., 0; `self.n - 1` is evaluated once in both versions (n >= 1 here: u[0] was written above)",
+    [(TRI, """        for j in (0..self.n - 1).rev() {
+            let temp = gamma[j + 1] * u[j + 1];""", """        let mut j = self.n - 1;
+        while j > 0 {
+            j -= 1;
+            let temp = gamma[j + 1] * u[j + 1];""")])
+add("held-vec-assign-for-to-while", "C15",
+    "Vector::assign: `for i in 0..self.size()` -> counter `while`",
+    "same index sequence; the length of the vector does not change (only elements are overwritten)",
+    [(V_FUN, """        for i in 0..self.size() {
+            self.vec[i] = elem;
+        }""", """        let mut i = 0;
+        while i < self.size() {
+            self.vec[i] = elem;
+            i += 1;
+        }""")])
+add("held-sp-tmul-for-to-while", "C07",
+    "Sparse::transpose_multiply: outer `for i in 0..self.cols` -> counter `while`",
+    "same index sequence; self is not modified",
+    [(SPR, """        let mut result = Vector::create( vec![ T::zero(); self.cols ] );
+        for i in 0..self.cols {
+            for k in self.col_start[ i ]..self.col_start[ i + 1 ] {
+                result[ i ] += self.val[ k ] * x[ self.row_index[ k ] ];
+            }
+            
+        }""", """        let mut result = Vector::create( vec![ T::zero(); self.cols ] );
+        let mut i = 0;
+        while i < self.cols {
+            for k in self.col_start[ i ]..self.col_start[ i + 1 ] {
+                result[ i ] += self.val[ k ] * x[ self.row_index[ k ] ];
+            }
+            i += 1;
+        }""")])
+add("held-band-det-for-to-while", "C04",
+    "Banded::det: the product loop `for i in 0..self.n` -> counter `while` with the bound on the left (`self.n > i`)",
+    "same index sequence",
+    [(BND, """        for i in 0..self.n {
+            //dd *= au[ i ][ 0 ];
+            dd *= au[(i, 0)];
+        }""", """        let mut i = 0;
+        while self.n > i {
+            dd *= au[(i, 0)];
+            i += 1;
+        }""")])
+add("held-mat-swap_rows-demorgan", "C03 C01",
+    "Matrix::swap_rows: guard `rows <= r1 || rows <= r2` -> `!( rows > r1 && rows > r2 )` (De Morgan)",
+    "propositionally equal on usize; NOT addressed by the translator (no boolean normal form): expected to need the equality lemma",
+    [(M_OPS, "        if self.rows <= row_1 || self.rows <= row_2 { panic!( \"Matrix swap row range error.\" ); }", "        if !( self.rows > row_1 && self.rows > row_2 ) { panic!( \"Matrix swap row range error.\" ); }")])
+add("held-newton-vec-for-to-while", "C17",
+    "Newton<Vec64>::solve: `for _ in 0..self.max_iter` -> counter `while` incremented at the END of the body (a `return` inside)",
+    "same number of passes; the early `return` leaves the loop in both versions",
+    [(NWT, """        let mut current: Vec64 = self.guess.clone();
+        for _ in 0..self.max_iter {
+            let f: Vec64 = func( current.clone() );
+            let max_residual = f.norm_inf();
+            let mut j = Mat64::jacobian( current.clone(), func, self.delta );
+            let dx: Vec64 = j.solve_basic( &f );
+            current -= dx;
+            if max_residual <= self.tol {
+                return Ok( current )
+            }
+        }""", """        let mut current: Vec64 = self.guess.clone();
+        let mut pass: usize = 0;
+        while pass < self.max_iter {
+            let f: Vec64 = func( current.clone() );
+            let max_residual = f.norm_inf();
+            let mut j = Mat64::jacobian( current.clone(), func, self.delta );
+            let dx: Vec64 = j.solve_basic( &f );
+            current -= dx;
+            if max_residual <= self.tol {
+                return Ok( current )
+            }
+            pass += 1;
+        }""")])
+add("held-poly-derivative_n-for-to-while", "C11",
+    "Polynomial::derivative_n: `for _ in 0..n` -> `let mut k = 0; while k < n { ..; k += 1; }`",
+    "same number of passes; n is a parameter",
+    [(P_MOD, """        for _ in 0..n {
+            p = p.derivative();
+        }""", """        let mut k = 0;
+        while k < n {
+            p = p.derivative();
+            k += 1;
+        }""")])
+add("held-mesh-new-for-to-while", "C19",
+    "Mesh1D::new: `for _i in 0..nodes.size()` -> counter `while`",
+    "same number of passes; `nodes` is not modified",
+    [(MSH, """        for _i in 0..nodes.size() {
+            vars.push( node_vars.clone() );
+        }""", """        let mut i = 0;
+        while i < nodes.size() {
+            vars.push( node_vars.clone() );
+            i += 1;
+        }""")])
+add("held-solve-determinant-while-ne", "C02",
+    "determinant: `for i in 0..self.rows()` -> `let mut i = 0; while i != self.rows() { ..; i += 1; }`",
+    "i starts at 0 <= rows, so `!=` and `<` agree; NOT addressed by the translator (`!=` is a counter loop only when lo <= hi is known): expected refusal",
+    [(M_SOL, """        for i in 0..self.rows() {
+            det *= temp[(i,i)];
+        }""", """        let mut i = 0;
+        while i != self.rows() {
+            det *= temp[(i,i)];
+            i += 1;
+        }""")])
+add("held-sp-get-return-none", "C06",
+    "Sparse::get: tail `None` -> `return None;`, and the `if` in the loop with negated condition and an empty else",
+    "same control flow",
+    [(SPR, """                return Some( self.val[ k ] );
+            }
+        }
+        None
+    }""", """                return Some( self.val[ k ] );
+            }
+        }
+        return None;
+    }""")])
+add("held-band-index-swap-stmts", "C04",
+    "Banded::decompose: the independent statements `let mut i = k;` and `if l < self.n { l += 1; }` exchanged",
+    "the two statements touch different variables (i / l) and are pure; NOT addressed (statement order is kept by the translator): expected to need the equality lemma",
+    [(BND, """            let mut i = k;
+            if l < self.n { l += 1; }
+            for j in k + 1..l {
+                //if au[ j ][ 0 ] > dum {""", """            if l < self.n { l += 1; }
+            let mut i = k;
+            for j in k + 1..l {
+                //if au[ j ][ 0 ] > dum {""")])
+
+# ------------------------------------------------------------------------------------------------ negative set
+# NOT harmless: each of these changes behaviour while looking like one of the canonicalised shapes.  Every one must still be
+# REPORTED (translator refusal or broken equality lemma) -- `run.py --set negative` checks that none is silent.
+NEG = []
+def neg(name, checks, what, why, edits): NEG.append((name, checks, what, why, edits))
+neg("poly-eval-while-decrement-last", "C11",
+    "Polynomial::eval as `let mut i = degree; while i > 0 { p = p * x + coeffs[i]; i -= 1; }` (decrement AFTER the body)",
+    "uses the indices degree..1 instead of degree-1..0: wrong value",
+    [(P_MOD, """        for i in (0..degree).rev() {
+            p = p * x + self.coeffs[ i ];
+        }
+        p
+    }
+
+    /// Check if all""", """        let mut i = degree;
+        while i > 0 {
+            p = p * x + self.coeffs[ i ];
+            i -= 1;
+        }
+        p
+    }
+
+    /// Check if all""")])
+neg("vec-norm_1-while-step-2", "C15",
+    "Vector::norm_1 as a counter `while` with `i += 2`",
+    "skips every other element",
+    [(V_FUN, """        let mut result = T::zero();
+        for i in 0..self.size() {
+            result += self.vec[i].abs();
+        }
+        result""", """        let mut result = T::zero();
+        let mut i = 0;
+        while i < self.size() {
+            result += self.vec[i].abs();
+            i += 2;
+        }
+        result""")])
+neg("vec-assign-while-bound-shrinks", "C15",
+    "Vector::assign as a counter `while` whose body also pops an element (the bound `self.size()` changes)",
+    "the vector is truncated",
+    [(V_FUN, """        for i in 0..self.size() {
+            self.vec[i] = elem;
+        }""", """        let mut i = 0;
+        while i < self.size() {
+            self.vec[i] = elem;
+            self.vec.pop();
+            i += 1;
+        }""")])
+neg("mat-fill_diag-max-instead-of-min", "C03",
+    "Matrix::fill_diag: `if cols > rows { cols } else { rows }` (the larger dimension)",
+    "index out of range on non-square matrices",
+    [(M_OPS, "let n: usize = if self.cols < self.rows { self.cols } else { self.rows };", "let n: usize = if self.cols > self.rows { self.cols } else { self.rows };")])
+neg("solve-determinant-sign-flipped", "C02",
+    "determinant: `if pivots % 2 != 0 { det } else { -det }`",
+    "wrong sign",
+    [(M_SOL, "        if pivots % 2 == 0 { det } else { - det }", "        if pivots % 2 != 0 { det } else { - det }")])
+neg("solve-inverse-forward-order", "C02",
+    "inverse: back substitution `for ii in 0..rows { let i = ii; .. }` (forward instead of backward)",
+    "wrong inverse",
+    [(M_SOL, "            for i in (0..self.rows()).rev() {\n", "            for ii in 0..self.rows() {\n                let i = ii;\n")])
+neg("band-solve-while-stops-at-1", "C04",
+    "Banded::solve: back substitution `let mut i = self.n; while i > 1 { i -= 1; .. }`",
+    "row 0 is never solved",
+    [(BND, "        for i in (0..self.n).rev() {\n            let mut dum = x[ i ].clone();", "        let mut i = self.n;\n        while i > 1 {\n            i -= 1;\n            let mut dum = x[ i ].clone();")])
+neg("newton-f64-while-one-more-pass", "C17",
+    "Newton<f64>::solve: `let mut it = 0; while it <= self.max_iter { it += 1; .. }`",
+    "max_iter + 1 passes",
+    [(NWT, """        let mut current: f64 = self.guess;
+        for _ in 0..self.max_iter {
+            let deriv""", """        let mut current: f64 = self.guess;
+        let mut it: usize = 0;
+        while it <= self.max_iter {
+            it += 1;
+            let deriv""")])
+neg("sp-to_triplets-helper-swapped", "C06",
+    "Sparse::to_triplets through a private helper that pushes (column, row, value)",
+    "row and column exchanged",
+    [(SPR, """                triplets.push( ( self.row_index[ k ], j, self.val[ k ] ) );
+            }
+        }
+        triplets
+    }
+""", """                self.push_entry( &mut triplets, j, k );
+            }
+        }
+        triplets
+    }
+
+    fn push_entry( &self, out: &mut Vec<(usize, usize, T)>, j: usize, k: usize ) {
+        out.push( ( j, self.row_index[ k ], self.val[ k ] ) );
+    }
+""")])
+neg("tri-index-else-chain-swapped", "C05",
+    "Index for Tridiagonal as an if / else-if chain with sub and sup exchanged",
+    "returns the wrong diagonal",
+    [(TRI, """        if i == j { return &self.main[i]; }
+        if i == j + 1 { return &self.sub[j]; }
+        if i + 1 == j { return &self.sup[i]; }
+        panic!("Tridiagonal error: index out of bounds.");
+    }
+}
+
+impl<T> IndexMut""", """        if i == j { &self.main[i] }
+        else if i == j + 1 { &self.sup[j] }
+        else if i + 1 == j { &self.sub[i] }
+        else { panic!("Tridiagonal error: index out of bounds."); }
+    }
+}
+
+impl<T> IndexMut""")])
+neg("solve-max_abs-nan-negation", "C01",
+    "max_abs_in_column: `if max < a` -> `if !( max >= a )` on element values",
+    "differs when a is NaN (floating-point comparison is not a total order)",
+    [(M_SOL, "            if max < self[(i,col)].abs() {", "            if !( max >= self[(i,col)].abs() ) {")])
+neg("sp-cg-early-exit-inverted", "C08",
+    "solve_cg: `if i == 1 { p = z } else { .. }` -> `if i != 1 { p = z } else { .. }` (arms NOT exchanged)",
+    "wrong search direction",
+    [(SPR, """            rho = r.dot( &z );
+            if i == 1 {
+                p = z.clone();""", """            rho = r.dot( &z );
+            if i != 1 {
+                p = z.clone();""")])
+
 def sh(cmd, cwd):
     return subprocess.run(cmd, cwd=cwd, shell=True, stdout=subprocess.PIPE, stderr=subprocess.STDOUT, text=True)
 
@@ -878,6 +1152,19 @@ def gen(repo):
         idx.append("| %02d | `%s` | %s | %s | %s |" % (k, fn, checks, what.replace("|", "\\|"), why.replace("|", "\\|")))
     open(os.path.join(HERE, "INDEX.md"), "w").write("\n".join(idx) + "\n")
     print("wrote %d patches" % len(R))
+    os.makedirs(os.path.join(HERE, "negative"), exist_ok=True)
+    idx = ["# Negative set: behaviour-CHANGING edits that look like the canonicalised shapes -- every one must be reported", "",
+           "| # | patch | checks | what | why it is not harmless |", "|---|---|---|---|---|"]
+    for k, (name, checks, what, why, edits) in enumerate(NEG, 1):
+        apply_entry(repo, edits)
+        d = sh("git diff", repo).stdout
+        assert d.strip(), name
+        fn = "n%02d-%s.diff" % (k, name)
+        open(os.path.join(HERE, "negative", fn), "w").write(d)
+        sh("git checkout -- .", repo)
+        idx.append("| %02d | `%s` | %s | %s | %s |" % (k, fn, checks, what.replace("|", "\\|"), why.replace("|", "\\|")))
+    open(os.path.join(HERE, "negative", "INDEX.md"), "w").write("\n".join(idx) + "\n")
+    print("wrote %d negative patches" % len(NEG))
 
 if __name__ == "__main__":
     if sys.argv[1] == "gen": gen(sys.argv[2])
